@@ -10,7 +10,7 @@ import ast
 from ..program import AnalysisError, Inconclusive, ClassInfo, ExtClass
 from ..values import (Const, Sym, CRef, FRef, MRef, Bound, Obj, Tup, App, Coll,
                       New, Raise, walk)
-from ..interp import Interp, Hooks
+from ..interp import Interp, Hooks, is_private_helper
 from ..formulas import (LANGS, signatures, FormulaHooks, new_instance)
 from ..report import Finding, RuleResult, floor
 
@@ -470,7 +470,13 @@ class _GuardHooks(FormulaHooks):
         self.entry = entry
 
     def inline(self, I, fi, args):
-        return fi is self.entry or fi.name == 'LNot'
+        if fi is self.entry or fi.name == 'LNot':
+            return True
+        # a private helper next to the entry that does not receive the
+        # structure is part of the prologue (parsing / casting / guards),
+        # not a checking routine: interpreted
+        return is_private_helper(fi, self.entry) and not any(
+            x == self.kripke_sym for a in args for x in walk(a))
 
 
 def rule_sort4(prog):
@@ -486,6 +492,7 @@ def rule_sort4(prog):
         I = Interp(prog, hooks, rule='R-SORT-4')
         path = I.new_path()
         k = Sym('kripke')
+        hooks.kripke_sym = k
         fm = Sym('formula')
         res = I.call_function(FRef(f), [k, fm, Sym('parser'), Sym('F')], [],
                               path, f.node)
